@@ -1,14 +1,17 @@
 SPECIFICATION Spec
 CONSTANTS
   NN = 8
-  Wins <- MCWinsSmall
+  Wins <- MCWins
   NTP = 2
-  NG = 1
-  Keys = {"size", "first", "window"}
+  NG = 2
+  Keys = {"none", "content", "ends", "size", "first", "window"}
   ModeReads = {"eval", "construct"}
+INVARIANT HoldFresh
+INVARIANT HoldTwin
+INVARIANT OnRequestedGrid
 INVARIANT RefuteSize
 INVARIANT RefuteFirst
 INVARIANT RefuteWindowTwin
 INVARIANT RefuteLatched
-INVARIANT OnRequestedGrid
+CONSTRAINT MutantAlphabet
 CHECK_DEADLOCK FALSE
